@@ -16,6 +16,17 @@ Clauses (all taken from the property statement)
   C15.*_no_alias                           with in_place False the result does not share memory with the input
                                            ("a copy should be made", PostProcessor.apply docstring)
   C15.*_raises                             the real call raised on an input inside the quantifier
+  C15.*_reuse_values / _reuse_shape / ...  ONE Deltas / Stack instance applied to a SEQUENCE of inputs of different rank,
+                                           shape, dtype, layout, axis and in_place: every call of the sequence must satisfy
+                                           the clauses above (the statement speaks of what "Deltas.apply returns" / where
+                                           "Stack.apply places" frames for the instance's num_deltas / target_axis /
+                                           time_axis ... - for every call, not only the first one on a new object; the
+                                           quantifier ranges over "all tensor shapes ..., dtypes, axis / target_axis /
+                                           time_axis values (negative too)" with the configuration held fixed)
+  C15.*_reuse_fresh                        ... and equals, bit for bit, what a freshly built instance of the same
+                                           configuration returns for that input
+  C15.*_reuse_attrs                        ... and leaves the instance's public attributes (the configuration the statement
+                                           refers to: num_vectors, time_axis, num_deltas, concatenate, ...) as constructed
 
 Oracles are written from the statement: the Kaldi recursion for the filter coefficients by plain loops
 (scales_[i] from scales_[i-1]), an explicit index map for the edge extension (cross-checked against np.pad of an
@@ -201,9 +212,23 @@ def _kaldi_scales(order, window):
 
 
 # --------------------------------------------------------------------------- Deltas
-def _check_deltas(case):
-    """Returns (failures [(clause, msg)], nontrivial, slack)"""
+def _new_deltas(case):
     from pydrobert.speech.post import Deltas
+
+    mode, cval = case["pad_mode"], case.get("constant_values")
+    kwargs = dict(case.get("pad_kwargs") or {})
+    if cval is not None:
+        kwargs["constant_values"] = cval
+    lib_mode = _pad_callable(mode.split(":", 1)[1]) if mode.startswith("callable:") else mode
+    with warnings.catch_warnings():
+        warnings.simplefilter("ignore")
+        return Deltas(int(case["num_deltas"]), target_axis=int(case["target_axis"]), concatenate=bool(case["concatenate"]),
+                      context_window=int(case["context_window"]), pad_mode=lib_mode, **kwargs)
+
+
+def _check_deltas(case, op=None, out=None):
+    """Returns (failures [(clause, msg)], nontrivial, slack).  `op`: an existing instance to use instead of a new
+    one (reuse sequences); `out`: dict that receives the raw result under "res"."""
 
     fails = []
     x, x0 = _make_input(case)
@@ -214,15 +239,14 @@ def _check_deltas(case):
     mode, cval = case["pad_mode"], case.get("constant_values")
     in_place = bool(case.get("in_place", False))
     pad_kw = dict(case.get("pad_kwargs") or {})
-    kwargs = dict(pad_kw)
-    if cval is not None:
-        kwargs["constant_values"] = cval
-    lib_mode = _pad_callable(mode.split(":", 1)[1]) if mode.startswith("callable:") else mode
     try:
         with warnings.catch_warnings():
             warnings.simplefilter("ignore")
-            op = Deltas(nd, target_axis=target, concatenate=concat, context_window=W, pad_mode=lib_mode, **kwargs)
+            if op is None:
+                op = _new_deltas(case)
             res = op.apply(x, axis=axis, in_place=in_place)
+        if out is not None:
+            out["res"] = res
     except Exception as e:  # noqa
         clause = "C15.deltas_input_unmodified" if "read-only" in str(e) else "C15.deltas_raises"
         return [(clause, f"{type(e).__name__}: {e}")], False, 0.0
@@ -342,17 +366,26 @@ def _stack_expected(x0, fa, ta, V, mode, cval):
     return exp
 
 
-def _run_stack(x, axis, time_axis, V, mode, cval, in_place):
+def _new_stack(time_axis, V, mode, cval):
     from pydrobert.speech.post import Stack
 
     kwargs = {} if cval is None else {"constant_values": cval}
     with warnings.catch_warnings():
         warnings.simplefilter("ignore")
-        op = Stack(V, time_axis=time_axis, pad_mode=mode, **kwargs)
+        return Stack(V, time_axis=time_axis, pad_mode=mode, **kwargs)
+
+
+def _run_stack(x, axis, time_axis, V, mode, cval, in_place, op=None):
+    if op is None:
+        op = _new_stack(time_axis, V, mode, cval)
+    with warnings.catch_warnings():
+        warnings.simplefilter("ignore")
         return op.apply(x, axis=axis, in_place=in_place)
 
 
-def _check_stack(case):
+def _check_stack(case, op=None, out=None):
+    """`op`: an existing instance to use instead of a new one (reuse sequences; the 2-D / N-D twins are then left
+    out); `out`: dict that receives the raw result under "res"."""
     fails = []
     x, x0 = _make_input(case)
     ndim = x.ndim
@@ -362,7 +395,9 @@ def _check_stack(case):
     fa, ta = axis % ndim, time_axis % ndim
     assert fa != ta
     try:
-        res = _run_stack(x, axis, time_axis, V, mode, cval, in_place)
+        res = _run_stack(x, axis, time_axis, V, mode, cval, in_place, op)
+        if out is not None:
+            out["res"] = res
     except Exception as e:  # noqa
         clause = "C15.stack_input_unmodified" if "read-only" in str(e) else "C15.stack_raises"
         return [(clause, f"{type(e).__name__}: {e}")], False
@@ -383,7 +418,7 @@ def _check_stack(case):
         if np.shares_memory(res, x):
             fails.append(("C15.stack_no_alias", "result shares memory with the input although in_place=False"))
     # 2-D and N-D agree: same data with a singleton axis inserted at every position
-    if ndim == 2 and not fails:
+    if ndim == 2 and not fails and op is None:
         for pos in range(3):
             x3, _ = _make_input(case)
             x3 = np.expand_dims(x3, pos)
@@ -401,6 +436,137 @@ def _check_stack(case):
                 fails.append(("C15.stack_2d_nd_agree", f"singleton axis at {pos}: N-D result {r3.shape} differs from 2-D result {res.shape}"))
                 break
     return fails, nontrivial
+
+
+# --------------------------------------------------------------------------- one instance, several inputs
+def _public_state(op):
+    """Public, non-callable attributes of the instance (instance dict and class-level data / properties)."""
+    st = {}
+    for name in dir(op):
+        if name.startswith("_"):
+            continue
+        try:
+            v = getattr(op, name)
+        except Exception as e:  # noqa
+            v = f"<{type(e).__name__}>"
+        if callable(v):
+            continue
+        st[name] = repr(v.tolist()) + str(v.dtype) if isinstance(v, np.ndarray) else repr(v)
+    return st
+
+
+def _same_result(a, b):
+    if not isinstance(a, np.ndarray) or not isinstance(b, np.ndarray):
+        return False
+    return a.shape == b.shape and a.dtype == b.dtype and np.ascontiguousarray(a).tobytes() == np.ascontiguousarray(b).tobytes()
+
+
+def _check_reuse(case):
+    """case = {"op": "reuse", "which": "stack" | "deltas", "config": {...}, "inputs": [{shape, dtype, layout, axis,
+    in_place, seed}, ...]}.  One instance is built from `config` and applied to the inputs in order.
+    Returns (failures, nontrivial)."""
+    which = case["which"]
+    cfg = dict(case["config"])
+    fails = []
+    first = dict(cfg, **case["inputs"][0])
+    try:
+        shared = _new_stack(int(cfg["time_axis"]), int(cfg["num_vectors"]), cfg["pad_mode"], cfg.get("constant_values")) if which == "stack" else _new_deltas(first)
+    except Exception as e:  # noqa
+        return [(f"C15.{which}_raises", f"constructor: {type(e).__name__}: {e}")], False
+    state0 = _public_state(shared)
+    nonempty = 0
+    for i, inp in enumerate(case["inputs"]):
+        sub = dict(cfg, **inp)
+        sub["op"] = which
+        where = f"call {i + 1} of {len(case['inputs'])} on one instance (input shape {tuple(inp['shape'])}, {inp['dtype']}, axis {inp['axis']}, in_place {inp['in_place']}; earlier inputs: {[tuple(q['shape']) for q in case['inputs'][:i]]})"
+        out = {}
+        if which == "stack":
+            f, nt = _check_stack(sub, op=shared, out=out)
+        else:
+            f, nt, _ = _check_deltas(sub, op=shared, out=out)
+        nonempty += bool(nt)
+        for clause, msg in f:
+            fails.append((clause.replace(f"C15.{which}_", f"C15.{which}_reuse_", 1), f"{where}: {msg}"))
+        # a freshly built instance of the same configuration on the same input
+        x, _ = _make_input(sub)
+        try:
+            with warnings.catch_warnings():
+                warnings.simplefilter("ignore")
+                fresh = _new_stack(int(cfg["time_axis"]), int(cfg["num_vectors"]), cfg["pad_mode"], cfg.get("constant_values")) if which == "stack" else _new_deltas(sub)
+                ref = fresh.apply(x, axis=int(inp["axis"]), in_place=bool(inp["in_place"]))
+        except Exception as e:  # noqa
+            ref = e
+        if "res" in out and not isinstance(ref, Exception):
+            if not _same_result(out["res"], ref):
+                fails.append((f"C15.{which}_reuse_fresh", f"{where}: the reused instance returned shape {getattr(out['res'], 'shape', None)} dtype {getattr(out['res'], 'dtype', None)}, a fresh instance shape {ref.shape} dtype {ref.dtype}" + ("" if getattr(out["res"], "shape", None) != ref.shape else " with different values")))
+        elif ("res" in out) != (not isinstance(ref, Exception)):
+            fails.append((f"C15.{which}_reuse_fresh", f"{where}: reused instance {'returned' if 'res' in out else 'raised'}, fresh instance {'raised ' + repr(ref) if isinstance(ref, Exception) else 'returned'}"))
+        state = _public_state(shared)
+        if state != state0:
+            diff = {k: (state0.get(k), state.get(k)) for k in sorted(set(state0) | set(state)) if state0.get(k) != state.get(k)}
+            fails.append((f"C15.{which}_reuse_attrs", f"{where}: apply changed public attributes of the instance (constructed -> now): {diff}"))
+            state0 = state  # report each change once
+        if any(not c.endswith("_reuse_attrs") for c, _ in fails):
+            break  # a changed attribute alone does not end the sequence: the later calls show what it does to the results
+    return fails, nonempty >= 2
+
+
+def _reuse_cases(tier, seed):
+    """Sequences of inputs for one instance.  Structure (configuration, ranks of the inputs) is deterministic;
+    extents, dtypes, layouts, feature axes and in_place are seeded."""
+    rng = _common.make_rng(seed, "c15-reuse-enum")
+    k = 0
+    ext = [1, 2, 3, 5, 4, 7]
+
+    def inp(rank, pick_axis, T_axis=None, zero=False):
+        nonlocal k
+        k += 1
+        shape = [int(ext[int(rng.integers(len(ext)))]) for _ in range(rank)]
+        axis = pick_axis(rank, shape)
+        if zero and rank > 1:  # an empty axis that is neither filtered nor the time / feature axis, if there is one
+            free = [a for a in range(rank) if a != axis % rank and a != (T_axis % rank if T_axis is not None else axis % rank)]
+            if free:
+                shape[free[0]] = 0
+        return {"shape": shape, "dtype": DTYPES[int(rng.integers(3))], "layout": LAYOUTS[int(rng.integers(3))], "axis": axis,
+                "in_place": bool(rng.integers(3) == 0), "seed": int(seed) * 1000003 + 500000 + k}
+
+    rank_orders = [(3, 4, 2, 3), (2, 3, 4, 2), (4, 2, 3, 4), (2, 2, 3, 3), (4, 3, 2, 2)]
+    if tier == "thorough":
+        rank_orders += [(3, 2, 4, 3, 2, 4), (4, 4, 2, 3, 2), (2, 4, 2, 4)]
+    # Stack: every time_axis that is valid for all ranks of the sequence, negative ones first
+    for ro_i, ranks in enumerate(rank_orders):
+        lo = min(ranks)
+        for ta in list(range(-lo, 0)) + list(range(0, lo)):
+            for V in (2, 3, 1):
+                pad = STACK_PADS[(ro_i + ta + V) % len(STACK_PADS)]
+
+                def pick(rank, shape, ta=ta):
+                    cands = [a for a in range(-rank, rank) if a % rank != ta % rank]
+                    return int(cands[int(rng.integers(len(cands)))])
+
+                yield {"op": "reuse", "which": "stack",
+                       "config": {"time_axis": ta, "num_vectors": V, "pad_mode": pad[0], "constant_values": pad[1]},
+                       "inputs": [inp(r, pick, ta, zero=(j == 2 and V == 1)) for j, r in enumerate(ranks)]}
+    # Deltas: every target_axis valid for all ranks of the sequence, both layouts of the result
+    d_orders = [(2, 3, 1, 4), (1, 2, 3, 2), (4, 2, 3, 1), (3, 3, 2, 2), (2, 4, 4, 3)]
+    if tier == "thorough":
+        d_orders += [(1, 4, 2, 3, 1, 2), (3, 1, 3, 1)]
+    allp = DELTA_PADS + DELTA_PADS_X
+    for ro_i, ranks in enumerate(d_orders):
+        for concat in (True, False):
+            lim = min(ranks) if concat else min(ranks) + 1
+            for target in range(-lim, lim):
+                pad = allp[(ro_i * 5 + target + 2 * concat) % len(allp)]
+
+                def pick(rank, shape):
+                    return int(rng.integers(-rank, rank))
+
+                yield {"op": "reuse", "which": "deltas",
+                       "config": {"target_axis": target, "concatenate": concat, "num_deltas": 1 + (ro_i + target) % 3,
+                                  "context_window": 1 + (ro_i + concat) % 3, "pad_mode": pad[0],
+                                  "constant_values": None if isinstance(pad[1], dict) else pad[1],
+                                  "pad_kwargs": dict(pad[1]) if isinstance(pad[1], dict) else {}},
+                       "inputs": [inp(r, pick, None, zero=(j == 3)) for j, r in enumerate(ranks)]}
 
 
 # --------------------------------------------------------------------------- enumeration
@@ -568,8 +734,23 @@ def run(tier: str, seed: int) -> dict:
     t_used = 0.0
     import time
 
+    # one instance, several inputs -- first: cheap, and the only cases in which an instance sees more than one input
+    n_reuse = {"stack": 0, "deltas": 0}
+    n_calls = 0
+    for case in _reuse_cases(tier, seed):
+        if col.too_many_failures() or col.out_of_time():
+            break
+        fails, nontrivial = _check_reuse(case)
+        n_reuse[case["which"]] += 1
+        n_calls += len(case["inputs"])
+        col.case(case, nontrivial=nontrivial, sample=case if n_reuse["stack"] == 2 and n_reuse["deltas"] == 0 else None)
+        for clause, msg in fails:
+            col.fail(clause, case, msg)
+    t_reuse = time.time() - col.t0
+    col.note(f"one instance reused for a sequence of inputs of different rank / shape / dtype / layout / axis / in_place: {n_reuse['stack']} Stack and {n_reuse['deltas']} Deltas "
+             f"sequences, {n_calls} apply calls, each checked against the oracle, against a freshly built instance and for unchanged public attributes ({t_reuse:.1f} s)")
     for op, gen in (("deltas", _delta_cases(tier, seed)), ("stack", _stack_cases(tier, seed))):
-        t_end = time.time() + budget * share[op]
+        t_end = time.time() + (budget - t_reuse) * share[op]
         exhausted[op] = True
         for case in gen:
             if time.time() > t_end or col.too_many_failures():
@@ -588,12 +769,14 @@ def run(tier: str, seed: int) -> dict:
     col.note(f"cases: deltas {counts['deltas']}, stack {counts['stack']} (each 2-D stack case also runs 3 singleton-axis N-D twins)")
     col.note(f"worst float64 delta error relative to max|filt| * sum|x| over the filter support: {worst:.3g} (tolerance {RTOL:g}); float32 adds one float32 ulp; int16 must equal trunc of the exact value (both neighbours accepted only when the exact value is within tolerance of an integer)")
     return col.result(
-        rule="Deltas: case = (shape, dtype, axis, target_axis, concatenate, num_deltas, context_window, pad mode[, constant value / keyword arguments], memory layout, in_place); "
+        rule="Reuse: case = (configuration of ONE Stack / Deltas instance, sequence of 4 (thorough: up to 6) inputs of different rank / shape / dtype / layout / axis / in_place); "
+        "non-trivial when at least two calls of the sequence gave non-trivial results; all time_axis (Stack) / target_axis x concatenate (Deltas) values valid for every rank of the sequence, negative ones included. "
+        "Deltas: case = (shape, dtype, axis, target_axis, concatenate, num_deltas, context_window, pad mode[, constant value / keyword arguments], memory layout, in_place); "
         "non-trivial when the input is non-empty and num_deltas >= 1. Stack: case = (shape, dtype, axis, time_axis, num_vectors, pad mode, layout, in_place); "
         "non-trivial when the result is non-empty. Fixed core first (all num_deltas x window x index-map pad on six shapes; num_deltas 1..3 x window x "
         "width-/kwargs-dependent pad (linear_ramp, callables, mean/median/min/max with stat_length, symmetric, wrap) on five shapes; all axis/target pairs on one asymmetric shape per rank; "
         "Stack: all V x pad x in_place on ten shapes), then a seeded shuffle of the full structural grid, ranks interleaved, until the time budget.",
-        bound="BOUNDED: ranks 1..4 (Stack 2..4), extents from {0,1,2,3,5(,7,8)} with 0 only on non-filtered axes for Deltas, num_deltas 0..3, context windows 1..3, "
+        bound="BOUNDED: reuse sequences of 4 (thorough <= 6) calls per instance over 5 (thorough 8 / 7) rank orders, extents {1,2,3,4,5,7} (one empty non-filtered axis), run first; then single calls: ranks 1..4 (Stack 2..4), extents from {0,1,2,3,5(,7,8)} with 0 only on non-filtered axes for Deltas, num_deltas 0..3, context windows 1..3, "
         "pad modes edge/constant(0 and 3)/reflect (+ none for Stack; Deltas also linear_ramp with/without end_values, two width-dependent callables, "
         "mean/median/maximum/minimum with/without stat_length, symmetric, wrap), num_vectors 1..4, float64/float32/int16, C/F/strided layouts; "
         f"every point of the structural grid (shape, axes, concatenate / num_vectors, pad) gets ONE seeded choice of the other parameters; time-boxed ({budget:.0f} s), see notes for whether the grid was finished",
@@ -603,7 +786,9 @@ def run(tier: str, seed: int) -> dict:
 
 def replay(case: dict):
     _common.use_repo()
-    if case.get("op") == "stack":
+    if case.get("op") == "reuse":
+        fails, _ = _check_reuse(case)
+    elif case.get("op") == "stack":
         fails, _ = _check_stack(case)
     else:
         fails, _, _ = _check_deltas(case)
